@@ -120,9 +120,13 @@ fn allowed_spans(root: &toml_edit::Item, f: &Fired) -> Vec<std::ops::Range<usize
             n.span()
         }
     };
-    // a node without a span of its own (dotted-key / header-implied table): the range covering its
-    // keys and values (what a Spanned request on it delivers), the key through which it was reached,
-    // or failing that the nearest spanned ancestor
+    // a node without a span of its own (dotted-key / header-implied table) has no "offending value's
+    // span" to carry: the library attaches the nearest location it has on the way out, and which
+    // one that is depends on the deserializers in between (the table form of a tuple variant, for
+    // one, attaches none of its own). Accepted: the range covering the node's keys and values
+    // (what a Spanned request on it delivers), or the span / cover / reaching key of any node that
+    // encloses it. (Until round 8 only the nearest spanned ancestor was accepted: two false alarms
+    // on the unchanged tree, VERIF_SEED 116 and the evidence run of round 7.)
     let with_fallback = |path: &[PathSeg], key_level: bool, allowed: &mut Vec<std::ops::Range<usize>>| {
         if let Some(s) = loc(path, key_level) {
             allowed.push(s);
@@ -142,7 +146,7 @@ fn allowed_spans(root: &toml_edit::Item, f: &Fired) -> Vec<std::ops::Range<usize
             }
             if let Some(s) = resolve(root, &p).and_then(|n| n.span()) {
                 allowed.push(s);
-                break;
+                continue;
             }
             // a span-less ancestor that the reader wrapped in Spanned is located by its cover range
             if let Some(c) = resolve(root, &p).and_then(|n| cover_span(&n)) {
@@ -520,6 +524,12 @@ pub fn enumerate_faults(text: &str, root: &toml_edit::Item, single: Option<Fault
             if !attributable {
                 out.stats.inc("probe.foreign_error");
             }
+            // the reader's position is only known when every key on its path was seen as text by the
+            // interposer; otherwise nothing about the location can be asserted (counted)
+            let path_known = !fired.path.iter().any(|s| matches!(s, Seg::Key(k) if k == "<unknown-key>"));
+            if !path_known {
+                out.stats.inc("probe.reader_path_unknown_location_not_asserted");
+            }
             let where_ = || format!("callback {k} = {} ({}) at path {:?}{}", fired.cb, if exit { "exit" } else { "entry" }, fired.path, if fired.in_key { " [key position]" } else { "" });
             if has_text(route) {
                 // clause 2
@@ -541,7 +551,7 @@ pub fn enumerate_faults(text: &str, root: &toml_edit::Item, single: Option<Fault
                     continue;
                 }
                 // clause 3
-                if attributable {
+                if attributable && path_known {
                     out.stats.inc("oracle.location");
                     // a table the generator wrote with its own [header] has a span (C14's mechanism): an
                     // error raised for it must carry that span, not the fallback through its key
@@ -582,7 +592,7 @@ pub fn enumerate_faults(text: &str, root: &toml_edit::Item, single: Option<Fault
                 if e.span.is_some() && *route != R4V {
                     out.violate("C15/5", format!("C15/stale-span/route={route}"), format!("{route} has no source text but the error carries span {:?}\n--- text ---\n{text}", e.span));
                 }
-                if attributable {
+                if attributable && path_known {
                     out.stats.inc("oracle.key_path");
                     let (_, keys, _) = to_path(&fired.path);
                     let want = if keys.is_empty() { format!("{}\n", e.message) } else { format!("{}\nin `{}`\n", e.message, keys.join(".")) };
